@@ -1379,6 +1379,30 @@ def rt_c05(tier="quick", first_only=False, count=None):
             fails.append(dict(what=f"VmapMixture of {fam} components (locs {locs_.tolist()}, weights {w_.tolist()}): Kolmogorov-Smirnov distance of 20000 draws (PRNGKey(11)) to the mixture CDF is {D:.4f} (> 0.02): the sampler does not draw from the mixture", case=dict(family=f"VmapMixture({fam}) sampler")))
             if first_only:
                 return fails
+    # every named family's SAMPLER draws from its own density: Kolmogorov-Smirnov distance of 20000 fixed-seed draws per coordinate to
+    # the textbook CDF, at non-default parameters (df != 1, non-zero loc, vector parameters)
+    ks_cases = [("Normal(0.3, 1.7)", Dm.Normal(0.3, 1.7), [st.norm(0.3, 1.7)]), ("LogNormal(0.2, 0.6)", Dm.LogNormal(0.2, 0.6), [st.lognorm(s=0.6, scale=np.exp(0.2))]),
+                ("Exponential(2.5)", Dm.Exponential(2.5), [st.expon(scale=1 / 2.5)]), ("Uniform(-1, 2.5)", Dm.Uniform(-1.0, 2.5), [st.uniform(-1.0, 3.5)]), ("Gumbel(0.2, 1.5)", Dm.Gumbel(0.2, 1.5), [st.gumbel_r(0.2, 1.5)]),
+                ("Cauchy(-0.5, 2)", Dm.Cauchy(-0.5, 2.0), [st.cauchy(-0.5, 2.0)]), ("Laplace(1, 0.7)", Dm.Laplace(1.0, 0.7), [st.laplace(1.0, 0.7)]), ("Logistic(-1, 1.3)", Dm.Logistic(-1.0, 1.3), [st.logistic(-1.0, 1.3)]),
+                ("StudentT(df=5, 0.5, 2)", Dm.StudentT(5.0, 0.5, 2.0), [st.t(5.0, 0.5, 2.0)]), ("StudentT(df=0.5)", Dm.StudentT(0.5), [st.t(0.5)]),
+                ("StudentT(df=[1, 2.5, 30])", Dm.StudentT(jnp.array([1.0, 2.5, 30.0])), [st.t(1.0), st.t(2.5), st.t(30.0)]),
+                ("MultivariateNormal (marginals)", Dm.MultivariateNormal(jnp.array([0.1, -0.5]), jnp.array([[2.0, 0.3], [0.3, 1.0]])), [st.norm(0.1, np.sqrt(2.0)), st.norm(-0.5, 1.0)])]
+    for label, dist_, refs in ks_cases:
+        n += 1
+        try:
+            smp = np.asarray(dist_.sample(_jr.PRNGKey(23), (20000,)), float).reshape(20000, -1)
+        except Exception as ex:  # noqa: BLE001
+            fails.append(dict(what=f"{label}.sample raised {type(ex).__name__}: {str(ex)[:100]}", case=dict(family=label)))
+            continue
+        for j_, ref_ in enumerate(refs):
+            xs_ = np.sort(smp[:, j_])
+            F_ = ref_.cdf(xs_)
+            D_ = float(max(np.max(np.arange(1, 20001) / 20000 - F_), np.max(F_ - np.arange(0, 20000) / 20000)))
+            if D_ > 0.02:
+                fails.append(dict(what=f"{label}: Kolmogorov-Smirnov distance of 20000 draws (PRNGKey(23)) of coordinate {j_} to the family's CDF is {D_:.4f} (> 0.02; the 1e-6 quantile at n = 20000 is 0.0186): the sampler does not draw from the density", case=dict(family=label + " sampler")))
+                break
+        if first_only and fails:
+            return fails
     umix = Dm.VmapMixture(eqx.filter_vmap(Dm.Uniform)(jnp.array([0.0, 2.0]), jnp.array([1.0, 3.0])), np.array([1.0, 1.0]))
     n += 1
     v = float(umix.log_prob(5.0))
